@@ -31,6 +31,7 @@ RULE = ("valid generated request/response (length|chunked|none framing) x one by
         "server cases run beside two well-behaved keep-alive clients (2 requests each); distinct = distinct delivered "
         "byte strings + delivery plan; non-trivial = the malformed bytes reached the parser (server: the connection was "
         "accepted and bytes were read; client: the response bytes were read) and differ from the valid message")
+RULE = __import__("vf.core", fromlist=["rule_add"]).rule_add(RULE, 'also a failing request pipelined behind a valid one whose response is still queued (judged when the server marked it failed)')
 META = {"engine": "E http", "technique": "fault injection at the byte level with bystander connections as witnesses",
         "level_text": "exploration: sampled mutations; every mutation operator and every outcome class floor-counted",
         "level_note": "only exceptions and bystander disturbance are verdicts for the malformed connection; whether a "
